@@ -2120,8 +2120,11 @@ impl PeerConnection {
             handles.push(handle);
         }
 
+        // Built now, not at the first poll: a caller that drops the returned future without
+        // ever polling it (close() raced the transport start) must still abort the loops.
+        let guard = LoopsGuard(handles);
         Box::pin(async move {
-            let _guard = LoopsGuard(handles);
+            let _guard = guard;
             done.notified().await;
         })
     }
